@@ -158,7 +158,7 @@ def gen_motif_world(rng, tier):
                           ('iferror_fb', 1), ('iferror_val', .8),
                           ('ifna_fb', .4), ('iserror', .6), ('count', .8),
                           ('name', .8), ('guard', .6), ('if_nested', 1),
-                          ('ifs2', .6)])
+                          ('ifs2', .6), ('ifs_cond', 1)])
         if k == 'strict':
             return ref(v)
         if k == 'range':
@@ -172,6 +172,10 @@ def gen_motif_world(rng, tier):
             inner = ['f', 'IF', guard(), ref(v), ['n', 1]]
             return ['f', 'IF', guard()] + ([inner, ['n', 2]] if rng.chance(.5)
                                            else [['n', 2], inner])
+        if k == 'ifs_cond':   # the dependency sits in a LATER condition
+            return ['f', 'IFS', guard(), ['n', rng.randrange(1, 5)],
+                    ['op', '>', ref(v), ['n', rng.pick([0, 2, 4])]], ['n', 5],
+                    ['b', True], ['n', 6]]
         if k == 'ifs2':
             return ['f', 'IFS', guard(), ['n', 1], guard(), ref(v),
                     ['b', True], ['n', 3]]
@@ -537,7 +541,7 @@ def absorbs_range_on_cycle(G, i):
     c = G.world['cells'][i]
     if 'f' not in c:
         return False
-    for ref, conds, icpt, sw, agg in occurrences(c['f']):
+    for ref, conds, icpt, sw, agg, weak in occurrences(c['f']):
         if not (icpt or sw):
             continue
         r = ref if ref[0] == 'r' else G.world['names'][ref[1]]['t']
